@@ -108,10 +108,23 @@ def rule_r1(chk, F):
         return
     masm_fns = [p for p in cg.bodies if p.startswith(CC + "masm::") and "MacroAssembler" in p]
     prims = set()
-    for p in masm_fns:
-        B = cg.body(p)
-        if any(x.name in call_insns for x in B.calls):
-            prims.add(p)
+    # A method that emits the call instruction *directly* on either target is a call primitive on both: on x64
+    # `virtual_call`/`raw_call` go through `call_reg`, on arm64 they emit `blr`/`bl` themselves — their call sites
+    # outside masm owe the stack map on both targets (C10.R7 checks that the transitive sets agree by name).
+    try:
+        A = F.a64()
+        acc = A.crate("dora_cannon_compiler")
+        a64_call = ("bl_i", "bl_r", "bl", "blr", "bl_imm")
+        for ap, mb in acc.mir.items():
+            if "masm::arm64::" not in ap:
+                continue
+            AB = cfg.Body(mb)
+            if any(x.name and x.name.startswith("dora_asm::arm64::") and last(x.name) in a64_call for x in AB.calls):
+                for p in masm_fns:
+                    if last(p) == last(ap):
+                        prims.add(p)
+    except Exception as e:                                      # noqa: BLE001 — host-only analysis still stands
+        r.observe("aarch64 facts unavailable (%s): call primitives derived from the x64 emitters only" % e)
     r.floor("call-emitting masm primitives", len(prims), 4)
     r.observe("primitives: %s" % sorted(last(p) for p in prims))
     targets, sym, tramp = runtime_function_targets(F)
